@@ -287,6 +287,11 @@ def cons_panel(tier):
                 noise=noise, options={"noise_final_samples": 3}, tags=["halfspace", mode])
             add(2, box, _quad(2, r, mn=[2.5, -2.0], cond=5.0), {"family": "ball", "c": [0.0, 0.0], "r": 1.5},
                 noise=noise, options={"noise_final_samples": 2}, tags=["ball", mode])
+        # constraint functions returning violation amounts (floats; > 0 violated, exactly 0 feasible)
+        add(2, box, _quad(2, r, mn=[3.0, 3.0]), {"family": "halfspace", "w": [1.0, 1.0], "b": 2.0, "float": True}, tags=["halfspace", "floatcons"])
+        add(2, box, _quad(2, r, mn=[2.5, -2.0]), {"family": "ball", "c": [0.0, 0.0], "r": 1.5, "float": True}, tags=["ball", "floatcons"])
+        add(2, S.box_geom(2, -4, 4, -2, 2, x0=[0.0, 0.0]), _quad(2, r, mn=[3.0, 0.0]),
+            {"family": "halfspace", "w": [1.0, 0.0], "b": 1.0, "float": True}, options={"max_fun_evals": 90}, tags=["halfspace", "floatcons", "onmesh_boundary"])
         # candidate sets that shrink to a single row: 1-D problems next to a bound, one-point initial designs
         add(1, {"lb": [0.0], "ub": [10.0], "plb": [1.0], "pub": [9.0], "x0": [9.5]}, {"family": "quad", "min": [2.0], "eig": [1.0], "rot_seed": 0},
             {"family": "halfspace", "w": [-1.0], "b": -6.0}, options={"max_fun_evals": 50}, tags=["d1", "single_row"])
